@@ -150,11 +150,18 @@ def judge(rels, x, y, tally=None, small=False):
     return out
 
 
-def build(text, variables, nvars):
+def build(text, variables, nvars, split=None):
+    """split: None = the text as one string; 'tuple1' = a 1-tuple holding the whole text; 'tuple' = one string per line
+    (the tuple-of-strings input of generate_solvers yields a tuple of tuples of solvers, which generate_constraint takes)"""
     import mystic.symbolic as ms
     v = variables if isinstance(variables, str) else list(variables)
+    src = text
+    if split == 'tuple1':
+        src = (text,)
+    elif split == 'tuple':
+        src = tuple(l for l in text.splitlines() if l.strip())
     with contextlib.redirect_stdout(io.StringIO()):
-        return ms.generate_constraint(ms.generate_solvers(text, variables=v, nvars=nvars))
+        return ms.generate_constraint(ms.generate_solvers(src, variables=v, nvars=nvars))
 
 
 def apply(c, x, array):
@@ -183,10 +190,12 @@ def relations(text, variables):
     return out
 
 
-def run_program(T, kind, name, text, variables, nvars, points, containers, sigbase, small_of):
+def run_program(T, kind, name, text, variables, nvars, points, containers, sigbase, small_of, split=None):
     rels = relations(text, variables)
+    if split:
+        sigbase = dict(sigbase, input=split)
     try:
-        c = build(text, variables, nvars)
+        c = build(text, variables, nvars, split)
     except Exception as e:
         T.violate(dict(sigbase, clause='build_raised', error=type(e).__name__),
                   {'kind': kind, 'text': text, 'variables': variables, 'nvars': nvars},
@@ -199,7 +208,7 @@ def run_program(T, kind, name, text, variables, nvars, points, containers, sigba
             T.count('traces')
             T.count('transitions', len(rels))
             y, err = apply(c, x, array)
-            case = {'kind': kind, 'text': text, 'variables': variables, 'nvars': nvars, 'x': x, 'array': array}
+            case = {'kind': kind, 'text': text, 'variables': variables, 'nvars': nvars, 'x': x, 'array': array, 'split': split}
             if err:
                 T.hist('outcome', 'raised')
                 T.violate(dict(sigbase, clause='raised', error=err.split(':')[0]), case,
@@ -316,6 +325,9 @@ def pair_points(layout, text, same_lhs=False):
     return pts
 
 
+SPLIT_CMPS = (('=', '<='), ('>', '!='), ('<', '='), ('>=', '>'), ('==', '<'), ('!=', '>='))
+
+
 def shard_pairs(item):
     _, progs, containers = item
     T = Tally()
@@ -337,6 +349,12 @@ def shard_pairs(item):
         run_program(T, part, name, text, variables, n, pair_points(layout, text), containers,
                     {'part': part, 'scheme': name, 'rhs': r1 + ' ; ' + r2},
                     lambda x, t=text: '1e300' not in t and all(abs(v) <= 13 for v in x))
+        if part == 'pair' and layout == 'x3.p01' and not swap and (c1, c2) in SPLIT_CMPS:
+            # the same program handed over as a tuple of strings (one string with both lines; one string per line)
+            for split in ('tuple1', 'tuple'):
+                run_program(T, part, name, text, variables, n, pair_points(layout, text), (False,),
+                            {'part': part, 'scheme': name, 'rhs': r1 + ' ; ' + r2},
+                            lambda x, t=text: '1e300' not in t and all(abs(v) <= 13 for v in x), split)
     if progs:
         T.sample({'text': text, 'layout': layout})
     return T
@@ -693,7 +711,7 @@ def replay(case):
         return []
     variables = case['variables']
     try:
-        c = build(case['text'], variables, case['nvars'])
+        c = build(case['text'], variables, case['nvars'], case.get('split'))
     except Exception as e:
         return ['build raised %s: %s' % (type(e).__name__, e)]
     if 'x' not in case:
